@@ -57,6 +57,10 @@ func ReadPointCloud(in io.Reader) (*modeling.Mesh, error) {
 
 		contents := strings.Fields(line)
 
+		if len(contents) < 3 {
+			return nil, fmt.Errorf("pts point %d has %d values, expected at least 3: %w", curLine, len(contents), io.ErrUnexpectedEOF)
+		}
+
 		if len(contents) > 2 {
 			pos, err := ParseVec3(contents[0], contents[1], contents[2])
 			if err != nil {
